@@ -202,7 +202,7 @@ func (fr *Frame) execInstr(ins ssa.Instruction, c *blockCtx) {
 			vs = append(vs, fr.val(r))
 		}
 		rp := fr.g.W.fset.Position(ins.Pos())
-		fr.rets = append(fr.rets, retPoint{c.reach, c.st.clone(), vs, fmt.Sprintf("%s:%d", shortPath(rp.Filename), rp.Line)})
+		fr.rets = append(fr.rets, retPoint{c.reach, c.st.clone(), vs, fmt.Sprintf("%s:%d", shortPath(rp.Filename), rp.Line), fr.curBlock})
 		fr.edgeCond[fr.curBlock] = nil
 	case *ssa.Panic:
 		fr.execPanic(ins, c)
